@@ -1629,7 +1629,12 @@ class LoopExpression(Expression):
         if isinstance(obj, Mapping):
             return iter(obj.items()), len(obj)
         if isinstance(obj, range):
-            return iter(obj), len(obj)
+            try:
+                return iter(obj), len(obj)
+            except OverflowError as err:
+                raise LiquidTypeError(
+                    f"range '{self.iterable}' is too large", token=self.token
+                ) from err
         if isinstance(obj, Sequence):
             return iter(obj), len(obj)
 
